@@ -1,4 +1,239 @@
-import FalconModel.FixedPoint
+/-
+  Property C09 — the fixed-point engine returns the least solution of the data-flow equations.
+
+  Model: `FalconModel/FixedPoint.lean` — `fpLoop P force fuel states queue`, the literal work-list loop of
+  `fixed_point_forward_options` / `fixed_point_backward_options`, generic over locations `L`, states `S` and the
+  record `P = (succs, preds, trans, join, cmp)`; `fixedPointForward` / `fixedPointBackward` instantiate it over
+  the location model of C18.  A run starts from the empty map and the queue `[e]`.
+
+  Named hypotheses:
+    `ConvR P e`     `preds` is contained in the converse of `succs` on the locations reachable from `e`
+                    (discharged for both solvers on well-formed functions by C18: `forward_conv`, `backward_conv`);
+    `LawfulEq`      `cmp a b = some .eq → a = b`  (`partial_cmp` answers `Equal` only for equal states);
+    `JoinLub P le`  `le` is a preorder and `join` its least upper bound;
+    `Mono P le`     every `trans l` is monotone, `None` being below every state.
+  All theorems are for every `P`, every fuel / step budget and every run; nothing is bounded.
+-/
+import FalconProofs.C09.Inst
+import FalconProofs.C09.Term
+import FalconProofs.C09.Mono
+
 namespace Falcon.C09
 open Falcon
+
+variable {L S : Type} [DecidableEq L]
+
+/-- the state stored for `l` satisfies the equation
+    `st l = trans l (fold join over {st p | p ∈ preds l, p has a state})` — the fold is the code's own
+    (left to right over the predecessor list; for an associative-commutative `join` it is `⨆`) -/
+def Eqn (P : FPParams L S) (st : List (L × S)) (l : L) : Prop := EqnR P (· = ·) st l
+
+/-- **Keys.** A successful run (with or without `force`) has a state for exactly the locations reachable from
+    the root by `succs` steps.  No hypothesis on the analysis. -/
+theorem fp_ok_keys (P : FPParams L S) (e : L) (force : Bool) (fuel : Nat) (st : List (L × S))
+    (h : fpLoop P force fuel [] [e] = .ok st) (l : L) :
+    alGet st l ≠ none ↔ Reach P.succL e l := by
+  have := fpLoop_inv P force (InvK P e) (fun _ _ _ _ _ hI hs => hI.step hs) fuel [] [e] st (InvK.init P e) h
+  exact this.keys l
+
+/-- **Solution.** Without `force`, a successful run satisfies the data-flow equation at every key — with *no*
+    monotonicity assumption.  Since the only other outcomes of the loop are `maxSteps`, `ordering`, `err`,
+    `panic` (type `FPOut`), this is the clause "an error rather than an unsound answer". -/
+theorem fp_ok_solution (P : FPParams L S) (e : L) (fuel : Nat) (st : List (L × S))
+    (hconv : ConvR P e) (hlaw : ∀ a b, P.cmp a b = some .eq → a = b)
+    (h : fpLoop P false fuel [] [e] = .ok st) :
+    ∀ l, alGet st l ≠ none → Eqn P st l := by
+  have := fpLoop_inv P false (InvE P e (· = ·))
+    (fun _ _ _ _ _ hI hs => hI.step hconv (fun _ => rfl) hlaw (by intro hf; cases hf) hs)
+    fuel [] [e] st (InvE.init P e _) h
+  intro l hl
+  exact this.eqn l hl (by simp)
+
+/-- **Least.** For a monotone analysis whose `join` is the least upper bound, the result is pointwise below
+    every solution of the equations on the reachable locations. -/
+theorem fp_least (P : FPParams L S) (e : L) (fuel : Nat) (st : List (L × S)) (le : S → S → Prop)
+    (hj : JoinLub P le) (hm : Mono P le) (h : fpLoop P false fuel [] [e] = .ok st)
+    (sol : List (L × S)) (hsol : IsSolution P e sol) :
+    ∀ l v, alGet st l = some v → ∃ v', alGet sol l = some v' ∧ le v v' := by
+  have := fpLoop_inv P false (InvL P e le sol)
+    (fun _ _ _ _ _ hI hs => hI.step hj hm hsol hs) fuel [] [e] st (InvL.init P e le sol) h
+  exact this.below
+
+/-- **Non-monotone ⇒ error.** Whenever the loop (without `force`) pops a location whose recomputed state is
+    not `≥` the stored one (`Less` or incomparable), the run ends with `FixedPointOrdering` for that location —
+    whatever the fuel, the rest of the queue and the rest of the map. -/
+theorem fp_nonmono_err (P : FPParams L S) (n : Nat) (st : List (L × S)) (l : L) (q ps : List L)
+    (inS : Option S) (s old : S) (hp : P.preds l = .ok ps) (hj : joinIn P st ps none = .ok inS)
+    (ht : P.trans l inS = .ok s) (hold : alGet st l = some old)
+    (hc : P.cmp s old = some .lt ∨ P.cmp s old = none) :
+    fpLoop P false (n + 1) st (l :: q) = .ordering (decide (P.cmp s old = some .lt)) l := by
+  rcases hc with hc | hc <;> simp [fpLoop, fpStep, hp, hj, ht, hold, hc]
+
+/-- **force (partial by design).** With `force = true` only the weaker `trans l (…) ≤ st l` is claimed:
+    every key's stored state is above the recomputed one (the engine stores `join(new, old)`). -/
+theorem fp_force_partial (P : FPParams L S) (e : L) (fuel : Nat) (st : List (L × S)) (le : S → S → Prop)
+    (hconv : ConvR P e) (hj : JoinLub P le) (hlaw : ∀ a b, P.cmp a b = some .eq → a = b)
+    (h : fpLoop P true fuel [] [e] = .ok st) :
+    ∀ l, alGet st l ≠ none → EqnR P le st l := by
+  have := fpLoop_inv P true (InvE P e le)
+    (fun _ _ _ _ _ hI hs => hI.step hconv hj.refl (fun a b hab => by rw [hlaw a b hab]; exact hj.refl b)
+      (fun _ a b c hab => hj.ub_left a b c hab) hs)
+    fuel [] [e] st (InvE.init P e _) h
+  intro l hl
+  exact this.eqn l hl (by simp)
+
+/-- **Termination.** Without `force` a stored state is only ever replaced by one that `cmp` calls `Greater`.
+    If `Greater` raises a rank bounded by `h` (finite height), `U` lists the reachable locations and `D` bounds
+    their out-degree, then `1 + |U|·(h+1)·(D+1)` iterations suffice: the loop never answers
+    `FixedPointMaxSteps` with a budget `max_analysis_steps ≥ |U|·(h+1)·(D+1)`, and the budget-less backward
+    loop terminates within that many iterations.  Neither monotonicity nor `JoinLub` is needed for this
+    (DESIGN listed them); with `force` the claim is false (see the report: a non-monotone analysis on a
+    cyclic CFG is re-stored and re-queued for ever). -/
+theorem fp_terminates (P : FPParams L S) (e : L) (rank : S → Nat) (h D : Nat) (U : List L)
+    (hrank : ∀ s, rank s ≤ h) (hgt : ∀ a b, P.cmp a b = some .gt → rank b < rank a)
+    (hU : ∀ l, Reach P.succL e l → l ∈ U) (hD : ∀ l, Reach P.succL e l → (P.succL l).length ≤ D)
+    (fuel : Nat) (hfuel : 1 + U.length * (h + 1) * (D + 1) ≤ fuel) :
+    fpLoop P false fuel [] [e] ≠ .maxSteps := by
+  apply fpLoop_terminates rank h D U hrank hgt hU hD fuel [] [e] (InvK.init P e)
+  have hphi : phi rank h U ([] : List (L × S)) = U.length * (h + 1) := phi_nil rank h U
+  simp only [measureM, hphi, List.length_singleton]
+  omega
+
+/-- **The property at full strength.** For a monotone analysis over a lattice of finite height — `join` the
+    least upper bound of `le`, `cmp` the order `le` with `Greater` raising a rank bounded by `h`, operations that
+    do not fail on the reachable locations — and a step budget of at least `|U|·(h+1)·(D+1)`, the solver
+    (without `force`) terminates and returns a map `st` such that: its keys are exactly the locations reachable
+    from the root; every key satisfies its data-flow equation; and `st` is pointwise below every solution of
+    the equations: the least solution.  `U` lists the reachable locations, `D` bounds their out-degree. -/
+theorem fp_monotone_least_solution (P : FPParams L S) (e : L) (le : S → S → Prop) (rank : S → Nat)
+    (h D : Nat) (U : List L) (hj : JoinLub P le) (hm : Mono P le) (hl : LawfulCmp P le rank h)
+    (htot : Total P e) (hconv : ConvR P e)
+    (hU : ∀ l, Reach P.succL e l → l ∈ U) (hD : ∀ l, Reach P.succL e l → (P.succL l).length ≤ D)
+    (fuel : Nat) (hfuel : 1 + U.length * (h + 1) * (D + 1) ≤ fuel) :
+    ∃ st, fpLoop P false fuel [] [e] = .ok st ∧
+      (∀ l, alGet st l ≠ none ↔ Reach P.succL e l) ∧
+      (∀ l, alGet st l ≠ none → Eqn P st l) ∧
+      (∀ sol, IsSolution P e sol → ∀ l v, alGet st l = some v → ∃ v', alGet sol l = some v' ∧ le v v') := by
+  rcases fpLoop_mono_ok hj hm hl.ge hl.gt_le htot fuel [] [e] (InvK.init P e) (InvH.init P le) with hmax | ⟨st, hst⟩
+  · exact absurd hmax (fp_terminates P e rank h D U hl.rank_le hl.gt_rank hU hD fuel hfuel)
+  · exact ⟨st, hst, fp_ok_keys P e false fuel st hst, fp_ok_solution P e fuel st hconv hl.eq_eq hst,
+      fun sol hsol => fp_least P e fuel st le hj hm hst sol hsol⟩
+
+/-- `ConvR` holds for the forward solver on a well-formed function (C18: forward and backward are converse) -/
+theorem forward_conv {f : Function} (hf : WFf f) (A : Analysis S) {b : Block} (hb : b ∈ f.cfg.blocks) :
+    ConvR (fwdParams f A) b.firstLoc.toOwned :=
+  fwd_conv hf A (firstLoc_mem hb)
+
+/-- `ConvR` holds for the backward solver on a well-formed function -/
+theorem backward_conv {f : Function} (hf : WFf f) (A : Analysis S) {b : Block} (hb : b ∈ f.cfg.blocks) :
+    ConvR (bwdParams f A) b.lastLoc :=
+  bwd_conv hf A (lastLoc_mem hb)
+
+/-- The forward solver on a well-formed function: a successful answer has a state for exactly the owned forms
+    of the locations reachable by `forward` steps from the first location of the entry block (by C18's
+    `forward_closure`: the locations on CFG paths from the entry block), and satisfies the equations. -/
+theorem forward_solver_ok {f : Function} (hf : WFf f) (A : Analysis S)
+    (hlaw : ∀ a b, A.cmp a b = some .eq → a = b) (maxSteps : Nat) (st : List (OFLoc × S))
+    (h : fixedPointForward f A false maxSteps = .ok st) :
+    ∃ en b, f.cfg.entry = some en ∧ f.cfg.block en = some b ∧
+      (∀ o, alGet st o ≠ none ↔ ∃ l, l ∈ f.locations ∧ o = l.toOwned ∧ Reach (FLoc.stepF f) b.firstLoc l) ∧
+      (∀ o, alGet st o ≠ none → Eqn (fwdParams f A) st o) := by
+  unfold fixedPointForward at h
+  cases hen : f.cfg.entry with
+  | none => rw [hen] at h; cases h
+  | some en =>
+    rw [hen] at h
+    simp only at h
+    cases hb : f.cfg.block en with
+    | none => rw [hb] at h; cases h
+    | some b =>
+      rw [hb] at h
+      simp only at h
+      have hbm := (Cfg.block_some hb).1
+      refine ⟨en, b, rfl, hb, ?_, ?_⟩
+      · intro o
+        rw [fp_ok_keys _ _ _ _ _ h]
+        constructor
+        · exact fwd_reach_owned hf A (firstLoc_mem hbm)
+        · rintro ⟨l, _, rfl, hr⟩
+          have key : ∀ l, Reach (FLoc.stepF f) b.firstLoc l →
+              l ∈ f.locations ∧ Reach (fwdParams f A).succL b.firstLoc.toOwned l.toOwned := by
+            intro l hr
+            induction hr with
+            | refl => exact ⟨firstLoc_mem hbm, Reach.refl _⟩
+            | tail _ hs ih =>
+              refine ⟨((mem_stepF_iff hf ih.1 _).mp hs).1, Reach.tail ih.2 ?_⟩
+              rw [fwd_succL hf A ih.1]
+              exact List.mem_map.mpr ⟨_, hs, rfl⟩
+          exact (key l hr).2
+      · exact fp_ok_solution _ _ _ _ (forward_conv hf A hbm) hlaw h
+
+/-! ### Non-vacuity: a two-location loop with a union/subset analysis -/
+
+private def exP : FPParams Bool Nat where
+  succs l := .ok [!l]
+  preds l := .ok [!l]
+  trans l x := .ok ((match x with | none => 0 | some s => s) ||| (if l then 2 else 1))
+  join a b := .ok (a ||| b)
+  cmp a b := if a = b then some .eq else if a &&& b = a then some .lt else if a &&& b = b then some .gt else none
+
+/-- the run succeeds, visits both locations, and needs re-computations (the first state changes twice) -/
+example : fpLoop exP false 10 [] [false] = .ok [(false, 3), (true, 3)] := by decide
+
+example : ConvR exP false := by
+  intro k _ p hp
+  simp only [FPParams.predL, FPParams.succL, exP, List.mem_singleton] at hp ⊢
+  subst hp; simp
+
+/-- a non-monotone transfer function makes the same loop answer `FixedPointOrdering` -/
+private def exBad : FPParams Bool Nat :=
+  { exP with trans := fun l x => .ok (match x with | none => 3 | some _ => if l then 2 else 1) }
+
+example : fpLoop exBad false 10 [] [false] = .ordering true false := by decide
+
+/-- the step budget: with one unit of fuel the same run answers `FixedPointMaxSteps` -/
+example : fpLoop exP false 1 [] [false] = .maxSteps := by decide
+
+/-! ### Non-vacuity of the full-strength theorem: a monotone analysis on a two-location loop, states `Bool`
+    (`false ≤ true`, join = `or`, rank = 0/1, height 1) -/
+
+private def exM : FPParams Bool Bool where
+  succs l := .ok [!l]
+  preds l := .ok [!l]
+  trans l x := .ok ((match x with | none => false | some s => s) || l)
+  join a b := .ok (a || b)
+  cmp a b := some (compare a b)
+
+private def leB (a b : Bool) : Prop := a = false ∨ b = true
+
+example : ∃ st, fpLoop exM false 9 [] [false] = .ok st ∧
+    (∀ l, alGet st l ≠ none ↔ Reach exM.succL false l) ∧
+    (∀ l, alGet st l ≠ none → Eqn exM st l) ∧
+    (∀ sol, IsSolution exM false sol → ∀ l v, alGet st l = some v → ∃ v', alGet sol l = some v' ∧ leB v v') := by
+  refine fp_monotone_least_solution exM false leB (fun b => b.toNat) 1 1 [false, true] ?_ ?_ ?_ ?_ ?_ ?_ ?_ 9
+    (by decide)
+  · refine ⟨?_, ?_, ?_, ?_, ?_⟩
+    · intro a; cases a <;> simp [leB]
+    · intro a b c; cases a <;> cases b <;> cases c <;> simp [leB]
+    · intro a b c hc; simp only [exM, Res.ok.injEq] at hc; subst hc; cases a <;> cases b <;> simp [leB]
+    · intro a b c hc; simp only [exM, Res.ok.injEq] at hc; subst hc; cases a <;> cases b <;> simp [leB]
+    · intro a b c u hc; simp only [exM, Res.ok.injEq] at hc; subst hc
+      cases a <;> cases b <;> cases u <;> simp [leB]
+  · intro l x x' y y' hy hy' hx
+    simp only [exM, Res.ok.injEq] at hy hy'
+    subst hy; subst hy'
+    cases l <;> cases x <;> cases x' <;> simp_all [leB, leO]
+  · refine ⟨?_, ?_, ?_, ?_, ?_⟩
+    · intro a b; cases a <;> cases b <;> simp [exM, compare]
+    · intro a b; cases a <;> cases b <;> simp [exM, leB, compare]
+    · intro a b; cases a <;> cases b <;> simp [exM, leB, compare]
+    · intro a b; cases a <;> cases b <;> simp [exM, compare]
+    · intro s; cases s <;> simp
+  · exact ⟨fun l _ => ⟨_, rfl⟩, fun l _ => ⟨_, rfl⟩, fun l _ x => ⟨_, rfl⟩, fun a b => ⟨_, rfl⟩⟩
+  · intro k _ p hp
+    simp only [FPParams.predL, FPParams.succL, exM, List.mem_singleton] at hp ⊢
+    subst hp; simp
+  · intro l _; cases l <;> simp
+  · intro l _; simp [FPParams.succL, exM]
+
 end Falcon.C09
